@@ -31,16 +31,21 @@ ep-run-hits-no-properness-assertion
     (`0 < shape`, `0 < rate` in _damp/_rescale, valid posteriors entering piecewise_scale_posterior) are the
     properness conditions themselves, so tripping one means an improper intermediate posterior.  The known
     "Use fewer rescaling intervals" assertion (DESIGN 6-F7, time-rescaling stage) is not judged here.
-known-root-regularisation-improper-cavity-assertion      (DEFECT found by this module, isolated here)
-    same requirement, for the one condition under which the unchanged code violates it: `assert penalty > 0` (or the
-    `0 < x[1]` assertion of _rescale reached from it) in ExpectationPropagation.propagate_prior.  The root-regularisation update forms the cavity
-    posterior - prior_message without the damping used for edge messages; when a root's posterior rate has dropped
-    below its current prior message the cavity rate is <= 0 and the EM penalty is not positive.  Seen only with
-    regularise_roots=True, max_shape >= 1e6 (not the default 1000), historical / internal samples and a mutation
-    rate >= 100 x too large.  A failing call lands in this clause only if it is recognised by its mechanism
-    (root_cavity_diagnosis): the identical EP run completes with regularise=False, every unconstrained root has a
-    proper posterior when the assertion trips, and some root's cavity posterior - prior_message is improper.
-    Anything else (e.g. a root that never received a message) stays in the strict generic clause.
+known-extreme-cap-root-regularisation-improper-cavity      (DEFECT found by this module, isolated here)
+    the requirement of ep-run-hits-no-properness-assertion, for this condition: max_shape >= 1e6 (default 1000) and
+    regularise_roots=True.  ExpectationPropagation.propagate_prior forms the cavity  posterior - prior_message  without
+    the damping used for edge messages; when a root's posterior rate has dropped below its current prior message
+    the cavity rate is <= 0 and `assert penalty > 0` (or `0 < rate` in _rescale) raises AssertionError.  Seen with
+    historical / internal samples and a mutation rate >= 100 x too large.
+known-extreme-cap-node-never-receives-message              (DEFECT found by this module, isolated here)
+    the base case of node-posterior-mean-variance-finite-positive, for this condition: max_shape >= 1e6 and a node
+    whose natural parameters are still exactly (0, 0) at the end (every update that touches it was skipped).  Its mean
+    and variance are inf (then tskit.LibraryError when the dated tables are built), or, with regularise_roots=True,
+    propagate_prior raises AssertionError on the message-less root.  Seen with historical + internal samples and a
+    mutation rate 1e5..1e7 x too large.
+  A failure lands in a known- clause only if the cap is extreme AND the mechanism is recognised (diagnose_ep_failure /
+  exact-zero natural parameters); every configuration with max_shape < 1e6 -- in particular the whole grid
+  {1.5, 5, 1000} -- and every other kind of impropriety stays in the strict generic clauses.
 
 Input space and bound
 ---------------------
@@ -334,32 +339,39 @@ def unphased_singletons(ts):
     return out
 
 
-def root_cavity_diagnosis(tsdate, ts, cfg):
-    """Recognise the known propagate_prior defect by its mechanism.  Returns a description, or None when the failure
-    is something else.  All of the following must hold: (1) the identical EP run completes with regularise=False
-    (propagate_prior is the only code under that switch); (2) re-running with the regularisation as a separate step
-    fails inside propagate_prior in some iteration, and ENTERING that call every unconstrained root has a PROPER
-    posterior (shape > 0, rate > 0, finite), i.e. no node is missing its first message; (3) for at least one such
-    root the cavity  posterior - scale * prior_message  has a non-positive rate or shape (which then trips either
-    `assert penalty > 0` or, when the pooled penalty is positive but smaller than one root's deficit, the
-    `0 < rate` assertion of _rescale called from propagate_prior)."""
+EXTREME_CAP = 1e6   # the two defects isolated in known- clauses were only ever seen with max_shape >= 1e6 (default 1000)
+
+
+def diagnose_ep_failure(tsdate, ts, cfg):
+    """Recognise, by mechanism, the two defects of the unchanged code that are isolated in known- clauses.  The EP run
+    is repeated with the root regularisation applied as a separate step (iterate(regularise=False), then
+    propagate_prior and the scale fold: the same computation as iterate(regularise=True) up to one extra,
+    meaning-preserving fold of the scales), so that the state ENTERING propagate_prior can be inspected.  Returns
+      {"kind": "node-without-message", ...}  some non-sample node still has natural parameters exactly (0, 0) -- no EP
+                                             update was ever applied to it -- when the run fails (or when it ends);
+      {"kind": "improper-root-cavity", ...}  every unconstrained root has a proper posterior entering propagate_prior
+                                             but for some root  posterior - scale * prior_message  has rate <= 0 or
+                                             shape <= 0, and propagate_prior then trips `assert penalty > 0` (or the
+                                             `0 < rate` assertion of _rescale when the pooled penalty is positive but
+                                             smaller than one root's deficit);
+      None                                   anything else."""
     EP = tsdate.variational.ExpectationPropagation
-    mk = dict(mutation_rate=cfg["mutation_rate"], singletons_phased=cfg["singletons_phased"])
-    try:
-        alt = EP(ts, **mk)
-        for _ in range(cfg["max_iterations"]):
-            alt.iterate(max_shape=cfg["max_shape"], regularise=False)
-    except Exception:
-        return None
-    # Re-run with the root regularisation applied as a separate step (iterate(regularise=False) followed by
-    # propagate_prior and the scale fold: the same computation as iterate(regularise=True) up to one extra,
-    # meaning-preserving fold of the scales), so that the state ENTERING propagate_prior can be inspected.
-    fit = EP(ts, **mk)
+    fit = EP(ts, mutation_rate=cfg["mutation_rate"], singletons_phased=cfg["singletons_phased"])
+    is_sample = np.zeros(ts.num_nodes, dtype=bool)
+    is_sample[ts.samples()] = True
+
+    def unmessaged():
+        P = np.array(fit.node_posterior)
+        return np.flatnonzero(~is_sample & (P[:, 0] == 0) & (P[:, 1] == 0))
+
     for it in range(cfg["max_iterations"]):
         try:
             fit.iterate(max_shape=cfg["max_shape"], regularise=False)
         except Exception:
-            return None
+            z = unmessaged()
+            return {"kind": "node-without-message", "iteration": it + 1, "nodes": z} if z.size else None
+        if not cfg["regularise_roots"]:
+            continue
         roots = np.flatnonzero(np.array(fit.unconstrained_roots))
         P = np.array(fit.node_posterior)[roots]
         prior = np.array(fit.factors.node)[roots, 0] * np.array(fit.factors.scale)[roots, None]
@@ -367,16 +379,24 @@ def root_cavity_diagnosis(tsdate, ts, cfg):
             fit.propagate_prior(fit.unconstrained_roots, fit.node_posterior, fit.factors, float(cfg["max_shape"]), 10, 1e-8)
             tsdate.variational._rescale_factors(fit.factors)
         except AssertionError:
+            zero = (P[:, 0] == 0) & (P[:, 1] == 0)
+            if np.any(zero):
+                return {"kind": "node-without-message", "iteration": it + 1, "nodes": roots[zero]}
             proper = np.all(np.isfinite(P)) and np.all(P[:, 0] > -1) and np.all(P[:, 1] > 0)
             cav = P - prior
             bad = (cav[:, 1] <= 0) | (cav[:, 0] <= -1)
             if proper and np.any(bad):
-                return {"iteration": it + 1, "roots": roots[bad], "posterior_entering_propagate_prior": P[bad],
-                        "prior_message": prior[bad], "cavity": cav[bad]}
+                return {"kind": "improper-root-cavity", "iteration": it + 1, "roots": roots[bad],
+                        "posterior_entering_propagate_prior": P[bad], "prior_message": prior[bad], "cavity": cav[bad]}
             return None
         except Exception:
             return None
-    return None
+    z = unmessaged()
+    return {"kind": "node-without-message", "iteration": cfg["max_iterations"], "nodes": z} if z.size else None
+
+
+KNOWN_CLAUSE = {"improper-root-cavity": "known-extreme-cap-root-regularisation-improper-cavity",
+                "node-without-message": "known-extreme-cap-node-never-receives-message"}
 
 
 # ------------------------------------------------------------------ one evaluation
@@ -410,16 +430,15 @@ def evaluate(rep, stats, tsdate, key, name, ts, cfg):
         else:
             # the EP run itself failed: the internal assertions of _damp/_rescale/propagate_prior/
             # piecewise_scale_posterior ARE the properness conditions (shape > 0, rate > 0), so this is an improper
-            # intermediate posterior.  One such condition is a KNOWN defect and is isolated in its own clause: the
-            # root-regularisation update (propagate_prior, only run when regularise_roots=True) subtracts the prior
-            # message without damping, the cavity rate can go negative and `assert penalty > 0` trips.  It is
-            # recognised by its mechanism (root_cavity_diagnosis), not by its input.
+            # intermediate posterior: a failure of the strict generic clause -- unless BOTH the configuration is an
+            # extreme cap (max_shape >= 1e6) AND the failure is recognised by mechanism as one of the two defects of the
+            # unchanged code, which then go to their own known- clauses.
             clause = "ep-run-hits-no-properness-assertion"
             diag = None
-            if cfg["regularise_roots"] and isinstance(e, AssertionError):
-                diag = root_cavity_diagnosis(tsdate, ts, cfg)
+            if cfg["max_shape"] >= EXTREME_CAP and isinstance(e, AssertionError):
+                diag = diagnose_ep_failure(tsdate, ts, cfg)
                 if diag is not None:
-                    clause = "known-root-regularisation-improper-cavity-assertion"
+                    clause = KNOWN_CLAUSE[diag["kind"]]
             rep.case(clause, False, key=key, input=desc,
                      observed={"exception": tag, "frames": where[-4:], "diagnosis": diag}, expected="EP run completes")
             return
@@ -434,13 +453,25 @@ def evaluate(rep, stats, tsdate, key, name, ts, cfg):
     free = np.flatnonzero(~is_sample)
     mn, va = post["mean"][free], post["variance"][free]
     good = np.isfinite(mn) & np.isfinite(va) & (mn > 0) & (va > 0)
-    rep.case("node-posterior-mean-variance-finite-positive", bool(np.all(good)), key=key, input=desc,
-             observed={"bad_nodes": free[~good], "mean": mn[~good], "variance": va[~good]}, expected="finite and > 0")
+    # known defect (isolated): with an extreme cap a node may never receive a valid message; its natural parameters
+    # are then still exactly (0, 0).  Those nodes -- and only under max_shape >= 1e6 -- are judged in the known- clause;
+    # the generic clauses stay strict on every other node and on every configuration with a smaller cap.
+    nat = np.array(fit.node_posterior)[free]
+    unmessaged = (nat[:, 0] == 0) & (nat[:, 1] == 0) & ~good & (max_shape >= EXTREME_CAP)
+    if np.any(unmessaged):
+        rep.case(KNOWN_CLAUSE["node-without-message"], False, key=key, input=desc,
+                 observed={"nodes": free[unmessaged], "natural_parameters": nat[unmessaged], "mean": mn[unmessaged],
+                           "variance": va[unmessaged]}, expected="finite and > 0")
+    judged = ~unmessaged
+    rep.case("node-posterior-mean-variance-finite-positive", bool(np.all(good[judged])), key=key, input=desc,
+             observed={"bad_nodes": free[judged & ~good], "mean": mn[judged & ~good], "variance": va[judged & ~good]},
+             expected="finite and > 0")
     with np.errstate(all="ignore"):
         shape = mn * mn / va
     capped_ok = shape <= max_shape * (1 + SHAPE_RTOL)
-    rep.case("node-shape-at-most-max-shape", bool(np.all(capped_ok[good])) and bool(np.all(good)), key=key, input=desc,
-             observed={"nodes": free[~capped_ok], "shape": shape[~capped_ok]}, expected={"max_shape": max_shape})
+    rep.case("node-shape-at-most-max-shape", bool(np.all(capped_ok[judged & good])) and bool(np.all(good[judged])), key=key,
+             input=desc, observed={"nodes": free[judged & ~capped_ok], "shape": shape[judged & ~capped_ok]},
+             expected={"max_shape": max_shape})
     stats["nodes_at_cap"] += int(np.sum(np.abs(shape[good] / max_shape - 1) < 1e-6))
     stats["nodes"] += int(free.size)
     smp = ts.samples()
